@@ -38,6 +38,7 @@ var isBuild = []bool{true, true, true, false, false, true}
 type graph struct {
 	Short bool     `json:"short_labels"` // BUILD files are loaded by their package label ("//p1") instead of "//p1:BUILD.dawn"
 	Rel   bool     `json:"relative_labels"` // files of the root package spell their loads relative to it ("p2:BUILD.dawn", ":h1.dawn"); the others spell the same files absolutely
+	Broken int     `json:"broken_helper"` // 1: h1 is spelled as a module of a project that is not a requirement; 2: h1's file does not exist
 	Edges [][2]int `json:"edges"`        // (from, to): file `from` has a load statement for file `to`, in this order
 	NPkg  int      `json:"packages"`
 	Name  string   `json:"name"`
@@ -45,7 +46,7 @@ type graph struct {
 
 func (g graph) String() string {
 	var b strings.Builder
-	fmt.Fprintf(&b, "%s pkgs=%d short=%v rel=%v:", g.Name, g.NPkg, g.Short, g.Rel)
+	fmt.Fprintf(&b, "%s pkgs=%d short=%v rel=%v broken=%d:", g.Name, g.NPkg, g.Short, g.Rel, g.Broken)
 	for _, e := range g.Edges {
 		fmt.Fprintf(&b, " %s>%s", fileSym[e[0]], fileSym[e[1]])
 	}
@@ -128,6 +129,9 @@ func (g graph) write(root string) {
 			if g.Short && isBuild[j] && strings.HasSuffix(lbl, ":BUILD.dawn") && lbl != "//:BUILD.dawn" {
 				lbl = strings.TrimSuffix(lbl, ":BUILD.dawn") // the package's default module
 			}
+			if g.Broken == 1 && j == 3 {
+				lbl = "nosuch.example/proj//:h1.dawn"
+			}
 			if g.Rel && !strings.Contains(filePath[i], "/") {
 				lbl = strings.TrimPrefix(lbl, "//") // relative to the root package, with or without a package part
 			}
@@ -143,6 +147,9 @@ func (g graph) write(root string) {
 				refs = append(refs, fileSym[j])
 			}
 			fmt.Fprintf(&b, "def _t():\n    x = [%s]\ntarget(name=\"t\", function=_t)\n", strings.Join(refs, ", "))
+		}
+		if g.Broken == 2 && i == 3 {
+			continue
 		}
 		p := filepath.Join(root, filePath[i])
 		must(os.MkdirAll(filepath.Dir(p), 0o755))
@@ -231,6 +238,13 @@ func verdicts(g graph, o *outcome) []string {
 	}
 	if !o.ret {
 		return []string{"load-did-not-return|Load did not return"}
+	}
+	if g.Broken != 0 && g.loaded()[3] {
+		// a module that cannot be loaded: every loader must be told so (and Load must return)
+		if o.err == nil {
+			bad = append(bad, "broken-module-not-reported|Load succeeded although a loaded module cannot be loaded")
+		}
+		return bad
 	}
 	if g.cyclic() {
 		if o.err == nil {
@@ -321,6 +335,21 @@ func curated() []graph {
 		func() graph {
 			g := G("build-2cycle-behind-relative-load", 3, E(b0, b1), E(b1, b2), E(b2, b1))
 			g.Rel = true
+			return g
+		}(),
+		func() graph {
+			g := G("shared-helper-of-unknown-project", 3, E(b0, h1), E(b1, h1), E(b2, h1))
+			g.Broken = 1
+			return g
+		}(),
+		func() graph {
+			g := G("shared-helper-file-missing", 3, E(b0, h1), E(b1, h1), E(b2, h1))
+			g.Broken = 2
+			return g
+		}(),
+		func() graph {
+			g := G("shared-helper-loading-missing-helper", 3, E(b0, h2), E(b1, h2), E(h2, h1), E(b2, h1))
+			g.Broken = 2
 			return g
 		}(),
 		G("self-load-build", 2, E(b0, b0)),
@@ -432,7 +461,7 @@ func main() {
 				go func() { _, err := dawn.Load(root, &dawn.LoadOptions{Events: ev}); done <- err }()
 				select {
 				case err := <-done:
-					if g.cyclic() != (err != nil) {
+					if wantErr := g.cyclic() || g.Broken != 0 && g.loaded()[3]; wantErr != (err != nil) {
 						fmt.Printf("VIOLATION property=C06 replay=-\n  free-running: graph %s cyclic=%v but Load returned %v\n", g, g.cyclic(), err)
 						os.Exit(1)
 					}
